@@ -937,6 +937,7 @@ type SHistory struct {
 	Faith   []string
 	Tag     string
 	IsDcp   bool     `json:",omitempty"`
+	Serial  bool     `json:",omitempty"`
 	Auto    bool     `json:",omitempty"`
 	Life    *LifeObs `json:",omitempty"`
 }
